@@ -21,7 +21,7 @@ FUNCTIONS = ['pfhedge.nn.functional.pl', 'pfhedge.nn.functional.terminal_value',
 ASSUMPTIONS = [
     'A1 reals for floats (float32/float64 rounding of the sums is not modelled)',
     'A3 torch contracts: slicing/list indexing, diff, abs, mul, sum over dims, unsqueeze, in-place -= on a fresh tensor, torch.tensor(list).to(spot), torch.stack',
-    'pl is verified for all N, H, T (symbolic); the hedger wiring (compute_pl / compute_portfolio) for all N, T and H enumerated in {1, 2, 3} (the hedge list is a concrete Python list)',
+    'pl is verified for all N, H, T (symbolic); the hedger wiring (compute_pl / compute_portfolio) for all N, T and H enumerated in {1, 2, 3} (the hedge list is a concrete Python list), once with the real compute_hedge (all-at-once branch, all T; step-by-step T = 3) and once modularly against the CONTRACT of compute_hedge - an arbitrary (N, H, T) tensor, the shape being proved for both branches and every T by the HS/compute_hedge obligations of C02',
     'a listed derivative used as hedge: its pricer is a pure deterministic function of the instrument state (it is called once per use of .spot)',
 ]
 N, H, T = tm.var('N', 'I'), tm.var('H', 'I'), tm.var('T', 'I')
